@@ -4,6 +4,7 @@ import (
 	"fmt"
 	"strings"
 	"testing"
+	"testing/synctest"
 	"time"
 
 	"verif/internal/vk"
@@ -25,6 +26,9 @@ type c14path struct {
 	Slow        []int `json:"slow_nodes"`                             // nodes whose log takes 2 s per append
 	Roam        bool  `json:"subscription_of_a_node1_session_re-created_through_node_2_rpc"`
 	StaleGone   int   `json:"matching_subscriber_left_node_but_publisher_not_told"` // 0 = none
+	// Flash: on that node a client subscribes to the matching filter (QoS 0) and unsubscribes again before the node's
+	// transmit queue is drained; both changes then travel in the queue's own order. 0 = none
+	Flash int `json:"subscribed_and_unsubscribed_within_one_gossip_round_on_node"`
 }
 
 var c14pairs = [][3]string{{"a/b", "a/+", "a/c"}, {"a", "a/#", "b/#"}, {"a/b/c", "#", "+"}, {"a/b", "+/b", "a/b/c"}}
@@ -67,33 +71,41 @@ func c14paths() []c14path {
 							if n == 3 && q == 2 && !vk.Thorough() {
 								continue
 							}
-							out = append(out, c14path{n, pn, hosts, un, pi, q, 0, 0, nil, false, 0})
+							out = append(out, c14path{n, pn, hosts, un, pi, q, 0, 0, nil, false, 0, 0})
 							if pi == 0 && q == 1 && len(un) == 0 {
 								// a remote matching subscriber unsubscribes, but that news has not reached the publisher yet
 								for _, r := range remotes {
 									if hosts[r-1]&1 != 0 {
-										out = append(out, c14path{n, pn, hosts, nil, pi, q, 0, 0, nil, false, r})
+										out = append(out, c14path{n, pn, hosts, nil, pi, q, 0, 0, nil, false, r, 0})
+									}
+								}
+							}
+							if q == 1 && len(un) == 0 {
+								// a subscription that comes and goes within one gossip round on a node without matching subscriber
+								for _, r := range remotes {
+									if hosts[r-1]&1 == 0 {
+										out = append(out, c14path{n, pn, hosts, nil, pi, q, 0, 0, nil, false, 0, r})
 									}
 								}
 							}
 							if pi == 0 && q == 1 && len(un) > 0 && len(un) < len(remotes) {
 								// the nodes that were unreachable are slow instead: everybody must still get the message
-								out = append(out, c14path{n, pn, hosts, nil, pi, q, 0, 0, un, false, 0})
+								out = append(out, c14path{n, pn, hosts, nil, pi, q, 0, 0, un, false, 0, 0})
 							}
 							if pi == 0 && q == 1 && len(un) == 0 && n == 2 && pn == 1 && hosts[0]&1 != 0 {
-								out = append(out, c14path{n, pn, hosts, nil, pi, q, 0, 0, nil, true, 0})
+								out = append(out, c14path{n, pn, hosts, nil, pi, q, 0, 0, nil, true, 0, 0})
 							}
 							if pi == 0 && q == 1 {
 								for ex := 1; ex <= n; ex++ {
 									if hosts[ex-1]&1 != 0 {
-										out = append(out, c14path{n, pn, hosts, un, pi, q, 0, ex, nil, false, 0})
+										out = append(out, c14path{n, pn, hosts, un, pi, q, 0, ex, nil, false, 0, 0})
 									}
 								}
 							}
 							if vk.Thorough() && pi == 0 && q == 1 {
 								for _, r := range remotes {
 									if hosts[r-1]&1 != 0 {
-										out = append(out, c14path{n, pn, hosts, un, pi, q, r, 0, nil, false, 0})
+										out = append(out, c14path{n, pn, hosts, un, pi, q, r, 0, nil, false, 0, 0})
 									}
 								}
 							}
@@ -198,6 +210,23 @@ func TestC14CrossNode(t *testing.T) {
 					}
 					w.Step()
 				}
+				if p.Flash != 0 {
+					w.PumpGossip()
+					w.GossipLazy = true
+					fc := w.NewClient("flash", p.Flash, AckAll)
+					fc.Connect(ConnectOpts{ClientID: "flash", KeepAlive: 600})
+					synctest.Wait()
+					w.GossipLazy = false
+					w.PumpGossip()
+					w.GossipLazy = true
+					fc.Subscribe(1, 0, match)
+					synctest.Wait()
+					fc.Unsubscribe(2, match)
+					synctest.Wait()
+					w.GossipLazy = false
+					w.PumpGossip()
+					w.Step()
+				}
 				// destinations known to the publishing node at publish time
 				known := map[int]bool{}
 				for _, s := range w.Node(p.Publisher).DState.Subscriptions().All() {
@@ -235,6 +264,11 @@ func TestC14CrossNode(t *testing.T) {
 					want := 0
 					if known[n] && !(unreach[n] && n != p.Publisher) {
 						want = 1
+					}
+					if n == p.Flash && p.Hosts[n-1]&1 == 0 && p.Extra != n && okAppends > 0 {
+						// absolute, not relative to the publisher's listing: nobody on that node holds a matching subscription
+						viol("c14-appended-to-wrong-or-twice:flash", "node %d hosts no matching subscription (a client subscribed and unsubscribed there within one gossip round), yet its log saw %d append(s) of the message; the publisher's node lists %v", n, okAppends, w.Node(p.Publisher).View().Subscriptions)
+						return
 					}
 					if known[n] && unreach[n] && n != p.Publisher {
 						failed = true
